@@ -396,7 +396,7 @@ type Result struct {
 	Runs          uint64            `json:"runs"`
 	RunsByScen    map[string]uint64 `json:"runs_by_scenario"`
 	Completed     bool              `json:"completed"`
-	SimTimeNs     int64             `json:"sim_time_ns"`
+	SimTimeS      float64           `json:"sim_time_s"`
 	WallS         float64           `json:"wall_s"`
 	Faults        map[string]int    `json:"faults"`
 	Probes        map[string]int    `json:"probes"`
@@ -790,7 +790,7 @@ outer:
 			}
 			res.Runs++
 			res.RunsByScen[sr.Name]++
-			res.SimTimeNs += int64(x.SimTime)
+			res.SimTimeS += x.SimTime.Seconds()
 			if os.Getenv("VSIM_DEBUG") != "" {
 				fmt.Fprintf(os.Stderr, "run %s#%d sim=%v draws=%d events=%d viol=%d\n", sr.Name, i, x.SimTime, x.C.Draws(), x.nEvents, len(x.Violations))
 			}
